@@ -224,3 +224,6 @@ for _p in ("C07", "C12", "C19"):
 
 PROPERTIES["C20"]["rules"] += [bel.logsumexp_shift]
 PROPERTIES["C20"]["explanation"] += " The shift inside exp is the maximum of the row's own segment and is added back (R13.LSE)."
+PROPERTIES["C02"]["rules"] += [sim.data_space_layout]
+PROPERTIES["C02"]["explanation"] += (" The choices an agent is offered are exactly those that pass the filters at the agent's states in the "
+                                     "simulated period (R5.LAY2: same mask for rows and segments, all filters, _period = current period).")
